@@ -48,7 +48,25 @@ fn canon_answer(a: &Ans, twin: bool) -> String {
         })
         .collect();
     cons.sort();
-    format!("({}) where {:?}", terms.join(", "), cons)
+    // what each query variable's result reports as ITS constraints (the ones that mention a
+    // variable occurring anywhere inside its value, however it is nested)
+    let per_var: Vec<Vec<String>> = a
+        .per_var
+        .iter()
+        .map(|cs| {
+            let mut out: Vec<String> = cs
+                .iter()
+                .map(|c| {
+                    let mut v: Vec<String> = c.iter().map(|(l, r)| format!("{} != {}", d(l), d(r))).collect();
+                    v.sort();
+                    v.join(" | ")
+                })
+                .collect();
+            out.sort();
+            out
+        })
+        .collect();
+    format!("({}) where {:?} per variable {:?}", terms.join(", "), cons, per_var)
 }
 
 fn check_twin(p: &Program, family: &str, index: usize) -> (Vec<Violation>, bool) {
